@@ -164,6 +164,8 @@ pub enum Ev {
     /// the case exceeded its callback budget (a history that multiplies its own events, e.g. by enabling an
     /// enabled source again and again): nothing after this entry is judged
     Exhausted,
+    /// number of fault sites the history passed (written at the end of every run)
+    FaultSites { n: u32 },
     /// teardown: every adapter still owned by a callback closure is dropped now (the loop is still alive)
     BagsCleared,
     Adapted { a: Option<usize>, nonblocking_after: bool },
@@ -199,6 +201,10 @@ pub struct Shared {
     pub bags: RefCell<std::collections::HashMap<SrcId, Vec<Box<dyn std::any::Any>>>>,
     /// sources whose callback closure has been dropped
     pub cb_dropped: RefCell<std::collections::HashSet<SrcId>>,
+    /// fault enumeration: fail the fault site with this running number (probe register sub-steps, reregister,
+    /// unregister, process_events, before_sleep), counted in execution order
+    pub fault_at: Cell<Option<u32>>,
+    pub fault_seen: Cell<u32>,
 }
 
 pub type Sh = Rc<Shared>;
@@ -216,7 +222,15 @@ impl Shared {
             thread: std::thread::current().id(),
             bags: RefCell::new(std::collections::HashMap::new()),
             cb_dropped: RefCell::new(std::collections::HashSet::new()),
+            fault_at: Cell::new(None),
+            fault_seen: Cell::new(0),
         })
+    }
+    /// One more fault site reached; true = this is the one to fail.
+    pub fn fault_here(&self) -> bool {
+        let n = self.fault_seen.get();
+        self.fault_seen.set(n + 1);
+        self.fault_at.get() == Some(n)
     }
     #[inline]
     pub fn push(&self, ev: Ev) {
